@@ -49,6 +49,15 @@ def with_guards(val, tx):
     return symx.prune(out)
 
 
+def _stmt_pos(block, pred):
+    """position of the first statement of the block satisfying pred (statement order, not line numbers: expanded helpers keep
+    the line numbers of their definition)"""
+    for i, s in enumerate(block):
+        if pred(s):
+            return i
+    return len(block) + 1
+
+
 def run(chk):
     idx = chk.idx
     chk.explain(
@@ -70,7 +79,7 @@ def run(chk):
 def r1(chk):
     idx = chk.idx
     # --- mvrs_to_data
-    fn = chk.fn(REL, "Assertion.mvrs_to_data")
+    fn = chk.fn(REL, "Assertion.mvrs_to_data", canonical=True)
     tx = Tx()
     ret = tx.block(list(fn.body))
     if not isinstance(ret, T) or len(ret.items) != 2:
@@ -117,9 +126,10 @@ def r1(chk):
                      with_guards(got, tx), want2, node=l)
         called = [norm(e.value.func) for e in tx.effects]
         chk.ob("C06.R1", W("Assertion.set_all_margins_from_cvrs"), "margin-set-before-read",
-               f"{av}.set_margin_from_cvrs" in called and
-               [e for e in tx.effects if norm(e.value.func) == f"{av}.set_margin_from_cvrs"][0].lineno <
-               min(s.lineno for s in l.body if isinstance(s, ast.If)),
+               f"{av}.set_margin_from_cvrs" in called and _stmt_pos(l.body, lambda s: isinstance(s, ast.Expr) and isinstance(s.value, ast.Call)
+                                                                    and norm(s.value.func) == f"{av}.set_margin_from_cvrs") <
+               _stmt_pos(l.body, lambda s: any(isinstance(t, ast.Attribute) and norm(t) == f"{av}.test.u" for t, v, s0 in stores(s))
+                         or f"{av}.margin" in norm(s)),
                "the loop assertion's margin is (re)computed before the bound is derived from it", node=l, strength="N")
     # --- raire/sample_estimator.sample_size
     fn = chk.fn(RE2, "sample_size")
@@ -212,7 +222,7 @@ SPEC_FILTER = "(not use_style) or (cvr_sample[i].has_contest(self.contest.id) an
 
 
 def r4(chk):
-    fn = chk.fn(REL, "Assertion.mvrs_to_data")
+    fn = chk.fn(REL, "Assertion.mvrs_to_data", canonical=True)
     where = W("Assertion.mvrs_to_data")
     tx = Tx()
     # bind the locals (margin, upper_bound, con, use_style) as the method does
